@@ -40,9 +40,30 @@ def jinjaSort (l : List String) : List String := isort leIgnoreCase l
 /-- `| sort(case_sensitive=true) | sort` (after the fix): ties of the second sort are already in code-point order -/
 def jinjaSortTotal (l : List String) : List String := isort leIgnoreCase (isort leExact l)
 
+/-- what a template does to a set before looping over it -/
+inductive SortKind
+  | unsorted     -- nothing: iteration order of the set
+  | legacy       -- `| sort`: case-insensitive, stable — ties in set order
+  | exact        -- `| sort(case_sensitive=true)`
+  | total        -- `| sort(case_sensitive=true) | sort`
+deriving DecidableEq, Repr
+
+/-- filters as extracted from the template, outermost first -/
+def sortKind (filters : List String) : SortKind :=
+  if filters == ["sort", "sort:case_sensitive"] then .total
+  else if filters == ["sort:case_sensitive"] then .exact
+  else if filters == ["sort"] then .legacy
+  else .unsorted
+
+def applySort : SortKind → List String → List String
+  | .unsorted, l => l
+  | .legacy, l => jinjaSort l
+  | .exact, l => isort leExact l
+  | .total, l => jinjaSortTotal l
+
 /-- a template `for` loop over a set-typed attribute: `items` is the set in its iteration order -/
-def emitLoop (sorted : Bool) (render : List String → String) (items : List String) : String :=
-  render (if sorted then jinjaSortTotal items else items)
+def emitLoop (k : SortKind) (render : List String → String) (items : List String) : String :=
+  render (applySort k items)
 
 /-- one `for` loop found in a template (translator output, regenerated every run) -/
 structure LoopFact where
@@ -50,11 +71,16 @@ structure LoopFact where
   template : String
   iter : String            -- dotted attribute chain of the iterable
   overSet : Bool           -- the last attribute is set-typed in some marshalling/AST class
-  filters : List String    -- filters applied to the iterable, innermost last
+  filters : List String    -- filters applied to the iterable, outermost first
 deriving Repr, DecidableEq
 
-/-- the generated obligation: every loop over a set goes through the total sort -/
-def loopOk (f : LoopFact) : Bool := !f.overSet || f.filters == ["sort", "sort:case_sensitive"]
+def SortKind.orderFree : SortKind → Bool
+  | .exact => true
+  | .total => true
+  | _ => false
+
+/-- the generated obligation: every loop over a set goes through a sort by a total antisymmetric order -/
+def loopOk (f : LoopFact) : Bool := !f.overSet || (sortKind f.filters).orderFree
 def allSetLoopsSorted (fs : List LoopFact) : Bool := fs.all loopOk
 
 /-! ### the API object -/
@@ -100,6 +126,7 @@ deriving DecidableEq, Repr, Inhabited
 structure GenCtx where
   prog : Prog
   mcfg : G → Option GCfg     -- marshalling objects exist for the generators configured at parse time
+  targets : List T           -- the targets configured in the context that parsed (`_config.model_fields_set`)
   supportLib : Bool
   report : Option Path
 
@@ -122,32 +149,41 @@ deriving DecidableEq, Repr
 inductive Outcome
   | parsed
   | wrote (files : List (Path × ContentId))
-  | missingConfig (files : List (Path × ContentId))   -- ConfigurationException after the earlier generators of the target ran
+  | missingConfig (files : List (Path × ContentId))   -- ConfigurationException (after the earlier generators of the target ran)
   | crash (files : List (Path × ContentId))           -- AttributeError: declaration without marshalling object
   | noReport
   | badCall
 deriving DecidableEq, Repr
 
-def cidOf (g : G) (prog : Prog) (cm cc : GCfg) (i : Nat) (f : FKind × Path) : ContentId :=
-  { g := g.key, tag := toString i ++ ":" ++ f.2.toString, prog := prog.id, cm := cm.content, cc := cc.content }
+/-- content digest of the configurations of a list of generators: the templates of one generator read its own
+    configuration and, through `metadata` (built by `Target.configure`), that of the other generators of its target;
+    marshalling objects read the marshalling objects of other generators (`decl.cpp.header` in JNI, …) -/
+def digestOn (gs : List G) (cfgs : G → Option GCfg) : String :=
+  ",".intercalate (gs.map (fun g => match cfgs g with | some c => c.content | none => "-"))
+
+def cidOf (g : G) (prog : Prog) (cmAll ccAll : String) (i : Nat) (f : FKind × Path) : ContentId :=
+  { g := g.key, tag := toString i ++ ":" ++ f.2.toString, prog := prog.id, cm := cmAll, cc := ccAll }
 
 /-- the files one generator writes for a generate context, with what their bytes depend on -/
-def genOutput (w : World) (g : G) (gc : GenCtx) (cm cc : GCfg) : List (FKind × Path × ContentId) :=
+def genOutput (w : World) (g : G) (gc : GenCtx) (cm cc : GCfg) (ccAll : String) : List (FKind × Path × ContentId) :=
   let sup := if gc.supportLib then w.support g else []
   let rel := genRel g cm cc sup gc.prog.defs
-  (List.range rel.length).zipWith (fun i f => ((place cc f).1, (place cc f).2, cidOf g gc.prog cm cc i f)) rel
+  (List.range rel.length).zipWith (fun i f => ((place cc f).1, (place cc f).2, cidOf g gc.prog (digestOn G.all gc.mcfg) ccAll i f)) rel
 
 def writeOps (g : G) (fs : List (FKind × Path × ContentId)) : List (FOp ContentId) :=
   fs.map (fun f => FOp.write g.key f.1 f.2.1 f.2.2)
 
-def parseOps (c : Cfg) (p : Prog) : List (FOp ContentId) :=
-  c.generators.flatMap (fun g => match c.gens g with
+/-- `Generator.configure`: the reader/writer learns the directories -/
+def configureOps (cfgs : G → Option GCfg) (gs : List G) : List (FOp ContentId) :=
+  gs.flatMap (fun g => match cfgs g with
     | some gc => (if g.writesHeader then [FOp.setInclude g.key gc.out.header] else []) ++ [FOp.setSource g.key gc.out.source]
     | none => [])
-  ++ p.reads.map FOp.readIdl ++ p.exts.map FOp.readExt
 
-/-- generators of one target, one after the other; stops at the first that cannot run -/
-def generateGens (w : World) (gc : GenCtx) : List G → ApiState → List (Path × ContentId) → ApiState × Outcome
+def parseOps (c : Cfg) (p : Prog) : List (FOp ContentId) :=
+  configureOps c.gens c.generators ++ p.reads.map FOp.readIdl ++ p.exts.map FOp.readExt
+
+/-- generators of one target (`tgs`), one after the other; stops at the first that cannot run -/
+def generateGens (w : World) (gc : GenCtx) (tgs : List G) : List G → ApiState → List (Path × ContentId) → ApiState × Outcome
   | [], s, acc => (s, .wrote acc)
   | g :: gs, s, acc =>
     match s.genCfg g with
@@ -156,11 +192,31 @@ def generateGens (w : World) (gc : GenCtx) : List G → ApiState → List (Path 
       match gc.mcfg g with
       | none => (s, .crash acc)
       | some cm =>
-        let fs := genOutput w g gc cm cc
-        generateGens w gc gs { s with frw := s.frw.run (writeOps g fs) } (acc ++ fs.map (fun f => (f.2.1, f.2.2)))
+        let fs := genOutput w g gc cm cc (digestOn tgs s.genCfg)
+        generateGens w gc tgs gs { s with frw := s.frw.run (writeOps g fs) } (acc ++ fs.map (fun f => (f.2.1, f.2.2)))
 
 def reportCid (r : Report) : ContentId :=
   { g := "report", tag := reprStr r, prog := "", cm := "", cc := "" }
+
+/-- the generator configurations a parse with configuration `c` installs -/
+def installed (c : Cfg) : G → Option GCfg := fun g => if c.generators.contains g then c.gens g else none
+
+/-- the generate context a parse of `p` under `c` returns -/
+def ctxOf (c : Cfg) (p : Prog) : GenCtx :=
+  { prog := p, mcfg := installed c, targets := c.targets, supportLib := c.supportLib, report := c.report }
+
+/-- `GenerateContext.generate` **as in the pinned tree**: whatever configuration the generators currently hold is used -/
+def generateLegacy (w : World) (s : ApiState) (gc : GenCtx) (t : T) : ApiState × Outcome :=
+  generateGens w gc t.generators t.generators s []
+
+/-- `GenerateContext.generate` (after the fix): a target that the context did not configure is refused; otherwise the
+    context's own configuration is applied to the (shared) generator instances first -/
+def generate (w : World) (s : ApiState) (gc : GenCtx) (t : T) : ApiState × Outcome :=
+  if gc.targets.contains t then
+    generateGens w gc t.generators t.generators
+      { s with genCfg := fun g => if t.generators.contains g then gc.mcfg g else s.genCfg g,
+               frw := s.frw.run (configureOps gc.mcfg t.generators) } []
+  else (s, .missingConfig [])
 
 def step (w : World) (s : ApiState) : Call → ApiState × Outcome
   | .parse i j =>
@@ -169,13 +225,12 @@ def step (w : World) (s : ApiState) : Call → ApiState × Outcome
       if c.wellConfigured then
         ({ genCfg := fun g => if c.generators.contains g then c.gens g else s.genCfg g,
            frw := s.frw.run (parseOps c p),
-           results := s.results ++ [{ prog := p, mcfg := fun g => if c.generators.contains g then c.gens g else none,
-                                      supportLib := c.supportLib, report := c.report }] }, .parsed)
+           results := s.results ++ [ctxOf c p] }, .parsed)
       else (s, .badCall)
     | _, _ => (s, .badCall)
   | .generate k t =>
     match s.results[k]? with
-    | some gc => generateGens w gc t.generators s []
+    | some gc => generate w s gc t
     | none => (s, .badCall)
   | .report k =>
     match s.results[k]? with
@@ -196,12 +251,11 @@ def runCalls (w : World) : ApiState → List Call → ApiState × List Outcome
 
 def initState : ApiState := { frw := { keys := G.all.map G.key } }
 
-/-- what a fresh process produces for (configuration, program, target) -/
+/-- what a fresh process produces for (configuration, program, target): parse, then generate -/
 def fresh (w : World) (c : Cfg) (p : Prog) (t : T) : Outcome :=
-  let gc : GenCtx := { prog := p, mcfg := fun g => if c.generators.contains g then c.gens g else none,
-                       supportLib := c.supportLib, report := c.report }
-  (generateGens w gc t.generators
-    { initState with genCfg := fun g => if c.generators.contains g then c.gens g else none } []).2
+  if c.targets.contains t then
+    (generateGens w (ctxOf c p) t.generators t.generators { initState with genCfg := installed c } []).2
+  else .missingConfig []
 
 /-! ### files on disk as a finite map -/
 
